@@ -9,7 +9,7 @@ DESIGN_REF = "DESIGN.md section 7 (C15)"
 RULE = (
     "the C08 declaration-race workload plus requests built to fail late, injected SQL statement "
     "errors ('database or disk is full') at a random statement of a request handler, and client "
-    "deaths right after the n-th complete request of a sub-plan was sent (in a quarter of the "
+    "deaths right after the n-th complete request of a sub-plan was sent, in half of the cases followed by the client's close request (in a quarter of the "
     "scenarios: right after an amend() whose handler waits for a slow hash job). Distinct = distinct "
     "declaration lists + fault plan; non-trivial = at least one request was rejected."
 )
